@@ -892,6 +892,16 @@ func (e *driverEnv) evidence(pl plan, a *agg, wall, mainWall float64, mainRuns, 
 			"eof_with_data": a.fault.EOFWithData, "read_errors": a.fault.ErrFired, "read_errors_with_data": a.fault.ErrWithData,
 			"writer_to_calls": a.fault.WriterToCalls, "writer_to_short": a.fault.WriterToShort, "nil_reader": a.fault.NilReader,
 			"error_kinds": errKindMap(a.fault.ErrKinds),
+			// state faults and aborted operations (C12, C15)
+			"state_fault_field_reset":               a.counters["state-faults"],
+			"state_fault_field_reset_after_queries": a.counters["state-faults-after-queries"],
+			"state_fault_obliging_queries":          a.counters["state-faults-obliging"],
+			"aborted_decode_receiver_observed":      a.counters["left-behind-observed"],
+			"aborted_decode_receiver_in_invalid_state": a.counters["left-behind-invalid-state"],
+			"nil_receiver_sweeps":                   a.counters["nils-sweeps"],
+			"redecode_on_used_receiver":             a.counters["state-changes-redec"],
+			"field_assignment":                      a.counters["state-changes-set"],
+			"deferred_reader_reads":                 a.counters["deferred-reads"],
 		},
 		"cross_process_keys_compared": a.crossShared,
 		"cross_process_keys_seen":     a.crossSeen,
